@@ -117,6 +117,38 @@ Section WithHash.
     - intros E. injection E as E. subst i. apply Hc. reflexivity.
   Qed.
 
+  (* ---------------- persistence: only calls change what is stored ---------------- *)
+  Theorem min_delay_frame s c :
+    min_delay (tls (fst (step s c))) <> min_delay (tls s) -> exists d, c = SetMinDelay d.
+  Proof.
+    intros Hne. destruct (step_cases s c) as [[_ E]|[_ H]]; [rewrite E in Hne; contradiction|].
+    destruct c.
+    - destruct H as (_ & E & _). rewrite E in Hne. cbn in Hne. contradiction.
+    - destruct H as (_ & _ & E & _). rewrite E in Hne. cbn in Hne. contradiction.
+    - destruct H as (_ & E & _). rewrite E in Hne. cbn in Hne. contradiction.
+    - destruct H as (_ & E & _). rewrite E in Hne. cbn in Hne. contradiction.
+    - eauto.
+    - destruct H as (_ & _ & _ & E). rewrite E in Hne. cbn in Hne. contradiction.
+  Qed.
+
+  Definition is_advance (c : call) : bool := match c with Advance _ => true | _ => false end.
+
+  (* any amount of time passing, in any number of steps, leaves every stored item as it is *)
+  Theorem time_changes_nothing_stored : forall cs s,
+    forallb is_advance cs = true ->
+    marks (tls (run s cs)) = marks (tls s) /\ min_delay (tls (run s cs)) = min_delay (tls s) /\
+    runs (run s cs) = runs s /\ now (tls s) <= now (tls (run s cs)).
+  Proof.
+    induction cs as [|c cs IH]; intros s Hall; [cbn; repeat split; lia|].
+    cbn [forallb] in Hall. apply andb_true_iff in Hall. destruct Hall as [Hc Hall].
+    rewrite run_cons. destruct (IH (fst (step s c)) Hall) as (I1 & I2 & I3 & I4).
+    destruct c; try discriminate.
+    assert (E : marks (tls (fst (step s (Advance n)))) = marks (tls s) /\ min_delay (tls (fst (step s (Advance n)))) = min_delay (tls s)
+                /\ runs (fst (step s (Advance n))) = runs s /\ now (tls s) <= now (tls (fst (step s (Advance n))))).
+    { destruct (step_cases s (Advance n)) as [[_ E]|[_ (_ & Hn & _ & E)]]; rewrite E; cbn; repeat split; lia. }
+    destruct E as (E1 & E2 & E3 & E4). rewrite I1, I2, I3. repeat split; auto; lia.
+  Qed.
+
   (* ---------------- done is forever ---------------- *)
   Lemma step_done s c i :
     mark (tls s) i = 1 ->
